@@ -78,7 +78,7 @@ line((.end_of_central_directory_record | ["E", (.disk_nr|num), (.nr_of_central_d
 
 const jqGif = jqDefs + `
 def cmap: nn([.[][] | tovalue] | tobytes | hx);
-def subs: [.[] | .data | tobytes] | tobytes | hx;
+def subs: [.[] | select(type == "object") | .data | tobytes] | tobytes | hx;
 def blk:
   if .separator_character != null then
     ["I", (.left|num), (.top|num), (.width|num), (.height|num), (.local_color_map_follows|bit), (.image_interlaced|bit),
